@@ -214,7 +214,9 @@ impl PropertyValue {
                     u32::from_le_bytes(bytes[1..5].try_into().expect("slice length checked"))
                         as usize;
                 let mut pos = 5;
-                let mut items = Vec::with_capacity(count);
+                // `count` is untrusted input: do not reserve memory for it up front,
+                // let the vector grow with the items that are actually decoded.
+                let mut items = Vec::new();
                 for _ in 0..count {
                     let (item, consumed) = Self::decode_recursive(&bytes[pos..])?;
                     items.push(item);
